@@ -91,6 +91,8 @@ CASES = [
     ("Image::draw: the offset is not applied", "mutation", MOD, [(".draw(&mut display.translated(self.offset))", ".draw(&mut display.translated(Point::zero()))")],
      ["Image_draw_src_eq_model"]),
     ("Image::translate ignores `by`", "mutation", MOD, [("            offset: self.offset + by,", "            offset: self.offset,")], ["Image_translate_src_eq_model"]),
+    ("Image::translate_mut assigns instead of adding", "mutation", MOD, [("        self.offset += by;", "        self.offset = by;")],
+     ["Image_translate_mut_src_eq_model"]),
     ("Framebuffer::as_image: width and height exchanged", "mutation", FB, [("Size::new(WIDTH as u32, HEIGHT as u32),\n        )\n        .unwrap()", "Size::new(HEIGHT as u32, WIDTH as u32),\n        )\n        .unwrap()")],
      ["as_image_src_eq_model"]),
     ("Framebuffer::pixel reads the origin", "mutation", FB, [("self.as_image().pixel(p)", "self.as_image().pixel(Point::zero())")],
@@ -150,6 +152,15 @@ def list_theorems(path):
     return out
 
 
+# seeded changes that touch one of the four files but no function this part translates: the proof tie cannot see them
+SEEDS_OUT_OF_SCOPE = {
+    "C10-1": "changes the WRITE path of src/framebuffer.rs (`set_pixel`): tools/tr_rawsrc.py's tie (raw_translator_demo.py --seeds catches it)",
+    "C10-2": "changes the WRITE path of src/framebuffer.rs (`set_pixel`): tools/tr_rawsrc.py's tie",
+    "C10-r2-1": "changes the WRITE path of src/framebuffer.rs (`set_pixel`): tools/tr_rawsrc.py's tie",
+    "C10-r3-1": "changes the WRITE path of src/framebuffer.rs (`draw_iter`): tools/tr_rawsrc.py's tie",
+}
+
+
 def seed_cases():
     out = []
     sd = os.path.join(V, "seeded")
@@ -158,6 +169,9 @@ def seed_cases():
         if not os.path.exists(pf):
             continue
         txt = open(pf).read()
+        meta = os.path.join(sd, d, "meta.json")
+        if os.path.exists(meta) and '"superseded"' in open(meta).read():
+            continue                      # neutralised by a later repair of /repo (does not apply any more)
         if any(("+++ b/" + rel) in txt for rel in tr_imgsrc.IMG_FILES + [tr_imgsrc.FB_FILE]):
             out.append((f"seeded change {d}", "seed", pf, None, []))
     return out
@@ -286,9 +300,13 @@ def main():
             if kind == "mutation":
                 ok = (not failed) and all(e in broken for e in expect)
             elif kind == "seed":
-                ok = len(real_broken) > 0 or same
-                tally["caught by a theorem" if real_broken and not failed else ("translator refuses" if failed else "no translated body changed")] = \
-                    tally.get("caught by a theorem" if real_broken and not failed else ("translator refuses" if failed else "no translated body changed"), 0) + 1
+                oos = [r for k, r in SEEDS_OUT_OF_SCOPE.items() if name.endswith(" " + k)]
+                ok = len(real_broken) > 0
+                if oos:
+                    ok = not real_broken
+                    name += f"\n      (out of scope, expected to survive: {oos[0]})"
+                tally["caught by a theorem" if real_broken and not failed else ("translator refuses" if failed else "out of scope")] = \
+                    tally.get("caught by a theorem" if real_broken and not failed else ("translator refuses" if failed else "out of scope"), 0) + 1
             elif kind == "harmless":
                 ok = (not failed) and not broken
             else:
